@@ -253,6 +253,8 @@ func (e *Engine) VerifyFunction(fn *ssa.Function, ct *Contract, timeoutMs, par i
 		b := x.freshValue(s, fv.Name(), fv.Type())
 		x.C.Assume(Not(Eq(b.L[0], IntLit(0))))
 		bindings = append(bindings, b)
+		// in the unit's own contract a captured variable is named like in the source
+		env.names[fv.Name()] = x.loadAt(s, deref(fv.Type()), b.L[0], b.L[1])
 	}
 	var ptrParams []Value
 	for _, a := range args {
@@ -342,6 +344,9 @@ func (e *Engine) VerifyFunction(fn *ssa.Function, ct *Contract, timeoutMs, par i
 	}
 	res.GenMs = time.Since(start).Milliseconds()
 	t1 := time.Now()
+	if ct != nil && ct.TimeoutS*1000 > timeoutMs {
+		timeoutMs = ct.TimeoutS * 1000
+	}
 	if e.DumpObl != "" {
 		for _, o := range x.C.Obls {
 			if o.Name == e.DumpObl {
